@@ -2,7 +2,7 @@ from vf.props.common import *
 EXPLANATION = ('cbmc over the real soxr_output pull loop (soxr.c) with a nondeterministic input function (any supply '
                '1..requested, end-of-input or failure at any call index) and an abstract engine with arbitrary supply; '
                'inductive step: one soxr_output call from any API state (incl. error / end-of-input already latched).')
-ASSUMPTIONS = ['the input function returns at most the requested length', 'io_ratio in [2^-12, 2^12]']
+ASSUMPTIONS = ['the input function returns at most the requested length', 'failure is a NULL *data with ANY returned length <= requested (soxr.h lists length 0; soxr.c tests the pointer only)', 'io_ratio in [2^-12, 2^12]']
 
 def obligations(tier):
     obls = []
